@@ -30,7 +30,7 @@ fn main() {
                 thorough_wall_s: 900.0,
                 event_cap: 5_000,
                 enumerate: Some(c27::enumerate),
-                rule: "one run = one enumerated case of the real key provider (spawn: load / fresh fallback / truncate-then-write / rotate loop) on the simulated disk: (A) every crash point = every prefix of the write stream after the truncating open (and 'before the open') of the store after 0-4 rotations, over no / empty / shorter / longer / garbage pre-existing files and history 0,1,3; (B) clean restart and every single I/O fault (ENOSPC, EIO, EINTR, short write on the k-th write; open errors; short/EINTR/EIO reads of the next load), with and without a later clean rotation; (C) every truncation length, header field value classes (time, id_offset, len x primary), every header bit and one bit of every key byte of stored files with 1, 2, 4 keys",
+                rule: "one run = one enumerated case of the real key provider (spawn: load / fresh fallback / truncate-then-write / rotate loop) on the simulated disk: (A) every crash point = every prefix of the write stream after the truncating open (and 'before the open') of the store after 0-4 rotations, over no / empty / shorter / longer / garbage pre-existing files and history 0,1,3; (B) clean restart and every single I/O fault (ENOSPC, EIO, EINTR, short write on the k-th write; open errors; short/EINTR/EIO reads of the next load), with and without a later clean rotation; (C) every truncation length, header field value classes (time, id_offset, len x primary), every header bit and one bit of every key byte of stored files with 1, 2, 4 keys; (D) seeded sequences of several such faults in one life cycle",
                 assumptions: &[
                     "process-crash semantics: writes issued before the crash survive in order (no power-loss reordering, no lost metadata)",
                     "std::fs::{File,OpenOptions} and std::thread::sleep in nts_key_provider.rs are replaced by the simulated disk / simulator-released park (hook H10); std::fs::metadata (permission warning only) is not simulated",
